@@ -211,6 +211,8 @@ def build(spec):
         return np.ascontiguousarray(rng.standard_normal((spec["m"], spec["n"]))
                                     + 1j * rng.standard_normal((spec["m"], spec["n"])))
     elif g == "realnd":
+        if "lo" in spec:     # uniform in [lo, hi] (image-like data) instead of Gaussian
+            return np.ascontiguousarray(_rng(spec["seed"]).uniform(spec["lo"], spec["hi"], tuple(spec["shape"])))
         return np.ascontiguousarray(_rng(spec["seed"]).standard_normal(tuple(spec["shape"])))
     elif g == "qnd":
         shp = tuple(spec["shape"])
